@@ -112,7 +112,13 @@ def opts(tier):
     o.many_segments_p = 0.0
     o.nasty_names = 0.05
     o.typeless_p = 0.05
-    o.scaling = lambda rng, spec, ctype: add_scaling(rng, spec, ctype, p=0.85)
+    def scaling(rng, spec, ctype):
+        # a share of channels gets one sensor scale (RTD / Thermocouple / Thermistor / Strain): no reference
+        # formula here (C17/C18), but purity, elementwise and lazy == eager are judged for them too
+        from .c14 import add_sensor
+        add_sensor(rng, spec, ctype, 0.15)
+        add_scaling(rng, spec, ctype, p=0.8)
+    o.scaling = scaling
     return o
 
 
@@ -173,6 +179,8 @@ def expected_scaled(w, path):
     scales = scalemodel.channel_scales(w, path)
     if scales is None:
         return None, None
+    if scales == 'unsupported':
+        return 'skip', None
     try:
         if ch.type == 'daqmx':
             scalers = {sid: scalemodel.raw_fractions(ch, sid) for sid in ch.scalers}
@@ -236,6 +244,7 @@ def execute(case):
             res.skipped_ops += 1
             res.ev('open-raises', type(exc).__name__)
             return res
+        keeper = ops.Keeper()
         try:
             raw0 = {}
             full = {}
@@ -258,6 +267,8 @@ def execute(case):
                         res.skipped_ops += 1
                     continue
                 ne, nl = ops.norm(se), ops.norm(sl)
+                keeper.keep('eager %s[:]' % path, se, ne)
+                keeper.keep('lazy %s[:]' % path, sl, nl)
                 full[path] = ne
                 res.compared += 1
                 if e is None:
@@ -286,7 +297,11 @@ def execute(case):
                 res.steps += 1
                 if op['op'] == 'chunks':
                     def stream():
-                        parts = [ops.norm(ck[:]) for ck in ops.chan(lazy, w, op['ch']).data_chunks()]
+                        parts = []
+                        for k_, ck in enumerate(ops.chan(lazy, w, op['ch']).data_chunks()):
+                            d_ = ck[:]
+                            parts.append(ops.norm(d_))
+                            keeper.keep('lazy %s data_chunks()[%d][:]' % (op['ch'], k_), d_, parts[-1])
                         return ops.concat_norm(parts)
                     g, exc, eo = ops.try_op(stream)
                     if exc:
@@ -296,11 +311,16 @@ def execute(case):
                                                 op='chunks'))
                     continue
                 for mode, tf in (('lazy', lazy), ('eager', eager)):
-                    v, g_, exc = _lazy.check_op(tf, w, op, fl, 'C13.window', mode)
+                    v, g_, exc = _lazy.check_op(tf, w, op, fl, 'C13.window', mode, keeper=keeper)
                     if v is not None:
                         res.violations.append(v)
                 if len(res.violations) > 3:
                     break
+            # results already handed out must not change when later reads happen
+            for (label, before, after) in keeper.mutated()[:3]:
+                res.violations.append(V('C13.result-aliased', 'the array returned by %s changed after later reads: was %s, now %s' % (
+                    label, _lazy._short(before), _lazy._short(after))))
+            res.probe('held-results-rechecked', len(keeper.items))
             # purity: raw data identical after all of the above
             for path, ch in w.chans.items():
                 ce = ops.chan(eager, w, path)
@@ -347,6 +367,8 @@ def sample(case):
     graphs = {}
     for path in w.chans:
         s = scalemodel.channel_scales(w, path)
-        if s:
+        if s == 'unsupported':
+            graphs[path] = 'sensor scale (no reference formula; purity / elementwise / lazy == eager only)'
+        elif s:
             graphs[path] = [(x['type'], x.get('src'), x.get('left'), x.get('right')) for x in s]
     return {'scale_graphs': graphs, 'n_ops': len(case['ops']), 'ops': case['ops'][:5]}
